@@ -9,19 +9,48 @@ ENGINES = [
 ]
 
 HARNESSES = {
+    'C10': [dict(name='c10_nn', src=['C10_nn.cpp'], flavour='hdr',
+                 repo_src=['/repo/src/ompl/util/src/RandomNumbers.cpp', '/repo/src/ompl/util/src/Console.cpp', '/repo/src/ompl/util/src/ProlateHyperspheroid.cpp', '/repo/src/ompl/util/src/GeometricEquations.cpp'], cflags=['-O2'])],
     'C11': [dict(name='c11_heap', src=['C11_heap.cpp'], flavour='hdr')],
     'C12': [dict(name='c12_pdf', src=['C12_pdf.cpp'], flavour='hdr')],
+    'C13': [dict(name='c13_grid', src=['C13_grid.cpp'], flavour='hdr')],
 }
 
 NOT_APPLICABLE = {}
 
+HBFS_NOTE = ('Trusted: the harness reference model and canonical dump (read with -fno-access-control), g++ 12 with ASan. '
+             'Silent outside the stated alphabet, size cap and depth; closure is claimed only where evidence.bounds.closure is true.')
+
 PROPERTY_META = {
+    'C10': dict(
+        deadline_quick=420, deadline_thorough=1500, engine='E2-HBFS', design_ref='5/C10',
+        technique='explicit-state BFS over op histories of the real GNAT/GNATNoThreadSafety/Linear/SqrtApprox with canonical tree states; brute-force oracle on every query in every state',
+        level_text='All histories of add / add(vector) / remove(present) / remove(absent) / clear up to the depth bound (deduplicated on the full private tree) '
+                   'for 8 GNAT parameterisations x 2 variants x 3 metrics with ties, duplicates and far clusters; the k-centers pivot draw and the '
+                   'NoThreadSafety child permutation are enumerated environment answers (hooks H1/H2). In every state size, list, nearest, nearestK, nearestR '
+                   'are compared position by position with brute force.',
+        level_note=HBFS_NOTE + ' Degree 2 / min 2 / max 3 trees with leaf size 1-2 so that every split/rebuild path is reached with <= 7 elements.'),
+    'C12': dict(
+        deadline_quick=300, deadline_thorough=1500, engine='E2-HBFS', design_ref='5/C12',
+        technique='explicit-state BFS over op histories of the real PDF, state = bit pattern of the private sum tree; prefix-sum oracle for boundary-value r in every state',
+        level_text='All add/update/remove/clear histories up to the depth bound over weights {0,1,2,0.1,0.3,1e16} (zeros, non-representable sums, huge ratios); in every '
+                   'state sample(r) is evaluated at 0, 2^-64, 1-2^-53, 1, every cumulative boundary +-1ulp and interval midpoints against long-double prefix sums, '
+                   'with ASan (vector annotations) and a live-element address check deciding memory safety.',
+        level_note=HBFS_NOTE + ' Rounding allowance as stated in evidence.assumptions.'),
+    'C13': dict(
+        deadline_quick=300, deadline_thorough=1500, engine='E2-HBFS', design_ref='5/C13',
+        technique='explicit-state BFS over op histories of the real Grid/GridN/GridB, state = cells with private counters/flags + both heap arrays; set-of-cells reference model',
+        level_text='All createCell+add / remove+destroyCell / update / updateAll / clear histories up to the depth bound on 1-, 2- (and 3-)dimensional coordinate alphabets with and '
+                   'without bounds and interior-limit override, two ordering functors; every state: lookups, neighbours (all overloads, symmetry), components, neighbour counts, '
+                   'border flags, queue membership, tops and counts against a set-of-cells model.',
+        level_note=HBFS_NOTE),
+
     'C11': dict(
         deadline_quick=200, deadline_thorough=1200, engine='E2-HBFS', design_ref='5/C11',
         technique='explicit-state BFS over op histories of the real BinaryHeap to closure, reference-model oracle in every state',
         level_text='Every reachable internal state of the real BinaryHeap with keys {0..K-1} and at most S elements (closure of the '
                    'finite state space, both comparison orders) is visited; in each one size, top, handle positions, contents, a full '
                    'drain and sort() are compared with a multiset model. Exhaustive for the stated alphabet and size cap, silent beyond.',
-        level_note='Trusted: the harness model (std::map id->key), g++/ASan. Keys are small integers with duplicates; size cap 7 (quick) / 8-9 (thorough); '
+        level_note=HBFS_NOTE + ' Keys are small integers with duplicates; size cap 7 (quick) / 8-9 (thorough); '
                    'private fields read with -fno-access-control; elements addressed by array position so the key array determines all futures.'),
 }
